@@ -197,7 +197,7 @@ Proof.
   pose proof (apply_op_wf p o p' Hw Ho E) as Hw'.
   pose proof Hw as (_ & _ & Ht8 & _ & _ & _ & Hk & _).
   unfold Sim. split; [exact Hw'|].
-  destruct o as [v|t|c|m|t|b|k v|k vs|k|]; cbn [apply_op op_wf spec_op] in *.
+  destruct o as [v|t|c|m|t|b|k v|k vs|k| |t]; cbn [apply_op op_wf spec_op] in *.
   - injection E as <-. cbn [set_hdr set_version hdr vtt code mid token opts payload s_ver s_type s_token s_code s_mid s_payload s_opts].
     rewrite <- Htok in *. repeat split; auto; lia.
   - injection E as <-. cbn [set_hdr set_type hdr vtt code mid token opts payload s_ver s_type s_token s_code s_mid s_payload s_opts].
@@ -219,6 +219,11 @@ Proof.
   - injection E as <-. cbn [clear_option set_opts hdr vtt code mid token opts payload s_ver s_type s_token s_code s_mid s_payload s_opts].
     repeat split; auto. rewrite (flatten_clear (opts p) 0 k Hk), Hopts. symmetry. apply sort_remove.
   - injection E as <-. cbn. repeat split; auto.
+  - apply andb_true_iff in Ho. destruct Ho as (Ho1 & _).
+    unfold set_token, set_token_length, set_hdr, header_new in E. cbn [hdr vtt code mid token opts payload] in E.
+    replace (len t mod 256 <? 16) with true in E by lia. cbn [bind] in E. injection E as <-.
+    cbn [hdr vtt code mid token opts payload s_ver s_type s_token s_code s_mid s_payload s_opts].
+    repeat split; auto; lia.
 Qed.
 
 Lemma sim_run ops : forall p s p', Sim p s -> ops_wf ops = true -> run_ops p ops = Ok p' -> Sim p' (fold_left spec_op ops s).
